@@ -71,7 +71,7 @@ type stats struct {
 	ambiguous, latestChecked, metaDeleted, readd, elementEnc, keyed                                  bool
 	sawConnErr                                                                                       map[string]bool
 	maxBulk, maxDeleted                                                                              int
-	nearValue, directEntry, mixedEnc                                                                 bool
+	nearValue, directEntry, mixedEnc, extremeTS                                                      bool
 	bigDeleteWithSurvivor                                                                            bool
 }
 
@@ -107,6 +107,7 @@ func (s *stats) labels() []string {
 	add(s.nearValue, "update-with-smallest-change-of-stored-value")
 	add(s.directEntry, "operation-through-the-per-target-entry-point")
 	add(s.mixedEnc, "prefix-and-paths-in-different-or-both-encodings")
+	add(s.extremeTS, "timestamp-from-the-edges-of-the-int64-range")
 	add(s.maxBulk > 32, "bulk-update>32")
 	add(s.maxBulk > 64, "bulk-update>64")
 	add(s.maxDeleted > 32, "one-delete-removed>32")
@@ -699,16 +700,23 @@ func (w *world) timestamp(name string, spec *Noti, n *pb.Notification) int64 {
 		}
 		if l, ok := m.leaves[k]; ok {
 			base = l.ts
-		} else if m.latest > 0 {
+		} else if m.accepted {
 			base = m.latest
 		}
 	case "latest":
-		if m.latest > 0 {
+		if m.accepted {
 			base = m.latest
 		}
+	case "abs":
+		// an absolute timestamp from the edges of the int64 range (differences that do not fit an int64)
+		w.st.extremeTS = true
+		return spec.TS.D
 	}
 	ts := base + spec.TS.D
-	if ts < 1 {
+	if (spec.TS.D > 0 && ts < base) || (spec.TS.D < 0 && ts > base) {
+		ts = base // the offset would wrap
+	}
+	if ts < 1 && base >= 1 {
 		ts = 1
 	}
 	return ts
@@ -1042,10 +1050,10 @@ func (w *world) interpret(i int, name string, clone *pb.Notification, m *mtarget
 		}
 	}
 	if anyAccepted {
-		m.accepted = true
-		if clone.Timestamp > m.latest {
+		if !m.accepted || clone.Timestamp > m.latest {
 			m.latest = clone.Timestamp
 		}
+		m.accepted = true
 		w.st.acceptedSeen = true
 	}
 	match = m.matchesTree(real)
